@@ -50,7 +50,20 @@ func equivalencePhase(r *vk.Run) {
 		if bp {
 			mode = "bp"
 		}
-		col := resource.NewCollection(resource.WithEquivalence(resource.ComparerFunc(sameTag)))
+		// one case in three: a coarse equivalence under which ALL stored values are equivalent, so that the predicate
+		// distinguishes values the comparer does not (an update that makes an item start or stop matching must still be
+		// reported, whatever the comparer thinks of the two versions)
+		coarse := rng.Intn(3) == 0
+		equivalent := sameTag
+		if coarse {
+			mode += "+coarse"
+			equivalent = func(x, y proto.Message) bool {
+				a, _ := x.(*testproto.TestAllTypes)
+				b, _ := y.(*testproto.TestAllTypes)
+				return a != nil && b != nil
+			}
+		}
+		col := resource.NewCollection(resource.WithEquivalence(resource.ComparerFunc(equivalent)))
 		pred := g.predFn(p)
 		model := map[int]*val{}
 		var seq int64
@@ -123,7 +136,7 @@ func equivalencePhase(r *vk.Run) {
 				switch {
 				case !has:
 					bad = append(bad, "missing "+id)
-				case !sameTag(h, m):
+				case !equivalent(h, m):
 					bad = append(bad, fmt.Sprintf("stale %s: holds %s, listed %s", id, vk.JSON(h), vk.JSON(m)))
 				}
 			}
@@ -136,7 +149,7 @@ func equivalencePhase(r *vk.Run) {
 			sort.Strings(bad)
 			if len(bad) > 0 {
 				cls := strings.SplitN(bad[0], " ", 2)[0]
-				r.Violation("C08/equivalence/fold/"+cls+"/"+mode, fmt.Sprintf("case %d: the folded include-filtered stream of a collection with an equivalence differs from List(include): %s\npredicate %s\n%s", i, strings.Join(bad, "; "), predString(p), strings.Join(trace, "\n")), map[string]any{"case": i, "predicate": p, "ops": ops, "subscribe_before_op": subAt, "backpressure": bp})
+				r.Violation("C08/equivalence/fold/"+cls+"/"+mode, fmt.Sprintf("case %d: the folded include-filtered stream of a collection with an equivalence differs from List(include): %s\npredicate %s\n%s", i, strings.Join(bad, "; "), predString(p), strings.Join(trace, "\n")), map[string]any{"case": i, "predicate": p, "ops": ops, "subscribe_before_op": subAt, "backpressure": bp, "coarse_equivalence": coarse})
 				ok = false
 			}
 			if !ok {
@@ -145,7 +158,7 @@ func equivalencePhase(r *vk.Run) {
 		}
 		cancel()
 		r.Count("equivalence-scenarios", 1)
-		r.Distinct(fmt.Sprintf("eqv|%d|%s|%d|%v", p, opsString(ops), subAt, bp))
+		r.Distinct(fmt.Sprintf("eqv|%d|%s|%d|%v|%v", p, opsString(ops), subAt, bp, coarse))
 		if !ok {
 			continue
 		}
